@@ -62,6 +62,14 @@ def _sex_word(female):
     return "female" if female else "male"
 
 
+def _sample_sex(arr, female, male_ref, par):
+    """What the commands document for -x/--sample-sex: the stated sex if one is given, "otherwise guessed from X and Y
+    coverage" (restated here rather than calling cnvkit's own helper, which is part of the plumbing under test)."""
+    if female is not None:
+        return bool(female)
+    return arr.guess_xx(male_ref, par, verbose=False)
+
+
 def call_diff(cnarr, tmpdir, method="threshold", ploidy=2, purity=None, male_ref=False, female=None, par=None,
               filters=None, thresholds=None, tag="c", vcf=None, sample_id=None, normal_id=None, min_variant_depth=20,
               zygosity_freq=None, center=None, center_at=None, drop_low=False):
@@ -117,7 +125,7 @@ def call_diff(cnarr, tmpdir, method="threshold", ploidy=2, purity=None, male_ref
         # what the command documents: sample sex is only consulted for purity < 1; given -> used, else inferred
         is_female = None
         if purity and purity < 1.0:
-            is_female = cmdutil.verify_sample_sex(arr, None if female is None else _sex_word(female), male_ref, par)
+            is_female = _sample_sex(arr, female, male_ref, par)
         kw = {} if thresholds is None else {"thresholds": tuple(float(t) for t in thresholds)}
         varr = cmdutil.load_het_snps(vcf, sample_id, normal_id, int(min_variant_depth), zygosity_freq) if vcf else None
         res = call.do_call(arr, varr, method, ploidy, purity, male_ref, is_female, par, list(filters or []), **kw)
@@ -283,7 +291,7 @@ def genemetrics_diff(cnarr, segarr, tmpdir, threshold, min_probes, skip_low, mal
 
     def api():
         arr = read_cna(cnr)
-        is_female = cmdutil.verify_sample_sex(arr, None if female is None else _sex_word(female), male_ref, par)
+        is_female = _sample_sex(arr, female, male_ref, par)
         tab = reports.do_genemetrics(arr, read_cna(cns) if cns else None, float(threshold), min_probes, skip_low, male_ref, is_female, par)
         cmdutil.write_dataframe(out_api, tab)
 
@@ -351,7 +359,7 @@ def export_bed_diff(segarr, tmpdir, ploidy, male_ref, female, par, label_mode, s
 
     def api():
         arr = read_cna(cns)
-        is_female = cmdutil.verify_sample_sex(arr, None if female is None else _sex_word(female), male_ref, par)
+        is_female = _sample_sex(arr, female, male_ref, par)
         label = None if label_mode == "genes" else arr.sample_id if label_mode == "sample" else label_mode
         tbl = export.export_bed(arr, ploidy, male_ref, par, is_female, label, show)
         cmdutil.write_dataframe(out_api, pd.concat([tbl]), header=False)
@@ -378,7 +386,7 @@ def export_vcf_diff(segarr, tmpdir, ploidy, male_ref, female, par, sample_id=Non
 
     def api():
         arr = read_cna(cns)
-        is_female = cmdutil.verify_sample_sex(arr, None if female is None else _sex_word(female), male_ref, par)
+        is_female = _sample_sex(arr, female, male_ref, par)
         header, body = export.export_vcf(arr, ploidy, male_ref, par, is_female, sample_id, None)
         cmdutil.write_text(out_api, header, body)
 
@@ -418,7 +426,9 @@ def _cmp_bed(a, b):
     return _cmp_text(a, b)
 
 
-def target_diff(bait_path, tmpdir, short, split, avg, annotate=None, tag="t"):
+def target_diff(bait_path, tmpdir, short, split, avg, annotate=None, tag="t", bait_arr=None):
+    """bait_arr: the table the BED file was written from (integer coordinates: nothing is lost in writing); when given,
+    the library side works on it, so how the command *reads* its input is part of what is compared."""
     from cnvlib import target
     from skgenome import tabio
 
@@ -432,12 +442,13 @@ def target_diff(bait_path, tmpdir, short, split, avg, annotate=None, tag="t"):
         argv += ["--annotate", annotate]
 
     def api():
-        tabio.write(target.do_target(tabio.read_auto(bait_path), annotate, short, split, int(avg)), out_api, "bed4")
+        baits = bait_arr.copy() if bait_arr is not None else tabio.read_auto(bait_path)
+        tabio.write(target.do_target(baits, annotate, short, split, int(avg)), out_api, "bed4")
 
     return _both(argv, api, out_cli, out_api, _cmp_bed)
 
 
-def antitarget_diff(target_path, access_path, tmpdir, avg, min_size, tag="a"):
+def antitarget_diff(target_path, access_path, tmpdir, avg, min_size, tag="a", target_arr=None, access_arr=None):
     from cnvlib import antitarget
     from skgenome import tabio
 
@@ -449,9 +460,11 @@ def antitarget_diff(target_path, access_path, tmpdir, avg, min_size, tag="a"):
         argv += ["-m", int(min_size)]
 
     def api():
-        acc = tabio.read_auto(access_path) if access_path else None
-        tabio.write(antitarget.do_antitarget(tabio.read_auto(target_path), acc, int(avg), None if min_size is None else int(min_size)),
-                    out_api, "bed4")
+        acc = None
+        if access_path:
+            acc = access_arr.copy() if access_arr is not None else tabio.read_auto(access_path)
+        tgt = target_arr.copy() if target_arr is not None else tabio.read_auto(target_path)
+        tabio.write(antitarget.do_antitarget(tgt, acc, int(avg), None if min_size is None else int(min_size)), out_api, "bed4")
 
     return _both(argv, api, out_cli, out_api, _cmp_bed)
 
